@@ -152,7 +152,7 @@ def parse(text, label, ordered_labels=None):
 
     b = body_nocarry
     # heading words before the verb ("Total other income. Add lines ...", "Income limitation. Multiply ...")
-    lead = re.match(r'^(?!(?:Add|Combine|Subtract|Multiply|Enter|If line|Divide)\b)(?:[A-Z][^.]*?\.\s+)(?=(?:Add|Combine|Subtract|Multiply|Enter|If line|Divide)\b)', b)
+    lead = re.match(r'^(?!(?:Add|Combine|Subtract|Multiply|Enter|If line|Divide)\b)(?:[A-Z][^.]*?\.\s+){1,3}?(?=(?:Add|Combine|Subtract|Multiply|Enter|If line|Divide)\b)', b)
     if lead:
         b = b[lead.end():]
 
@@ -170,6 +170,10 @@ def parse(text, label, ordered_labels=None):
                 if fm:
                     expr = ('cap0', expr)
                     rest = rest[fm.end():]
+    if expr is None:
+        m = re.match(rf'^Add the amounts on line (?P<a>{LAB})\.', b)
+        if m:
+            done(('addrows', m.group('a')), m, b)
     if expr is None:
         m = re.match(rf'^If line (?P<b>{LAB}) is more than line (?P<a>{LAB}), subtract line (?P<a2>{LAB}) from line (?P<b2>{LAB})\.', b)
         if m and m.group('a') == m.group('a2') and m.group('b') == m.group('b2'):
